@@ -24,6 +24,8 @@ BRANCH_NAMES = {0: "newton_converged", 1: "quartic_converged", 2: "newton_failed
 SABA_TYPES = ["1", "2", "3", "4", "10,4", "8,6,4", "10,6,4", "h8,4,4", "h8,6,4", "h10,6,4", "cm2", "cm3", "cl3", "cl4"]
 KNOWN_KEY = "kepler:hyperbolic_bisection_bracket_overflow"
 KNOWN_512 = "kepler:whfast512_fixed_iterations_outside_small_step_domain"
+KNOWN_BS = "kepler:history_stale_bs_nbody_ode"
+KNOWN_GJ = "kepler:history_stale_gravity_jacobi"
 KNOWN_HANG = "kepler:hyperbolic_newton_overflow_nontermination"
 
 
@@ -135,6 +137,31 @@ def gen_history(rng, hdt, m0):
     return ops
 
 
+def history_known(tag, hist):
+    """input-only characterisation of the two known history findings"""
+    if not hist:
+        return None
+    bs = False
+    gj = False
+    for h in hist:
+        if h["op"] == "reset_integrator":
+            bs = False                       # reb_integrator_bs_reset frees the leftover N-body ODE; r->gravity is NOT reset
+        if h["op"] == "steps":
+            if h["integrator"] == "bs":
+                bs = True
+            if h["integrator"] == "whfast" and h.get("kernel") in ("lazy", "modifiedkick"):
+                gj = True
+            if h["integrator"] == "saba" and h.get("saba_type", "")[:1] == "c":
+                gj = True
+            if h["integrator"] == "eos":
+                gj = False                   # EOS sets r->gravity = BASIC
+    if bs:
+        return KNOWN_BS
+    if gj and tag == "whfast/barycentric":
+        return KNOWN_GJ
+    return None
+
+
 def overflow_predicate(p, mu, dt):
     """input-only characterisation of the known defect: hyperbolic orbit whose bisection bracket end dt/q puts the
     first midpoint beyond the overflow threshold of the Stumpff doubling (sqrt(-beta)*|dt|/q / 2 > ~700)."""
@@ -187,6 +214,7 @@ def finite(xs):
 # ----------------------------------------------------------------------------- the check
 def run(ctx):
     libdir = ctx.lib()
+    ctx.regen("translate_whfast_init.py")       # coq/Gen/WhfastInit.v: statement tree of reb_integrator_whfast_init
     proved = ctx.prove("C03", extra_targets=["C03/Run.vo"])
     rng = ctx.rng
 
@@ -434,6 +462,13 @@ def run(ctx):
                 st = rng.choice(SABA_TYPES)
                 simcases[-1]["saba_type"] = st
                 simmeta[-1][0]["saba_type"] = st
+    # probes of the known finding KNOWN_BS (a BS step leaves its N-body ODE behind; without reset_integrator the next
+    # integrator's step is followed by a second, BS-driven advance): 2 per WHFast coordinate system
+    for k in range(len(simcases)):
+        if "history" in simcases[k] and simcases[k]["integrator"] == "whfast" and k % 30 == 0:
+            hb = {"op": "steps", "integrator": "bs", "n": 1, "dt": simcases[k]["history"][0].get("dt", simcases[k]["dt"])}
+            simcases[k]["history"] = [hb]
+            simmeta[k][0]["history"] = [hb]
     sim_out, err = run_driver(libdir, "sim", simcases, timeout=600)
     # WHFast512 (AVX512 build, own library in its own child): dt > 0, G = 1, massive planet with negligible mass
     w512 = []
@@ -498,7 +533,7 @@ def run(ctx):
             rel = [b - a_ for a_, b in zip(b0, b1)]
             # a full step applies the solver to several sub-steps (WHFast/MERCURIUS/TRACE: 2 halves; SABA(10,6,4): 8 stages,
             # some backwards) and converts coordinates twice: the single-call tolerance is widened accordingly
-            Kmult = 16 if meta["integrator"] == "saba" else 4
+            Kmult = 16 if meta["integrator"] == "saba" else 8
             fjobs.append((rel, mu_eff, dt, out, 64 * Kmult))
             fmeta.append((case, meta, s0 + s1, float.fromhex(r["t"])))
     with Pool(vlib.JOBS) as pool:
@@ -515,7 +550,8 @@ def run(ctx):
             known, th = overflow_predicate(rel, mu_eff, dt if meta["integrator"] != "whfast" else dt / 2)
             if meta.get("whfast512_domain") == "general":
                 known = True
-            violations.append(((KNOWN_512 if tag == "whfast512" else KNOWN_KEY) if known else "kepler:%s_nonfinite" % tag, rep,
+            hk = history_known(tag, meta.get("history"))
+            violations.append((hk if hk else ((KNOWN_512 if tag == "whfast512" else KNOWN_KEY) if known else "kepler:%s_nonfinite" % tag), rep,
                                "%s step produced NaN/inf" % tag))
             continue
         if t != dt:
@@ -531,9 +567,12 @@ def run(ctx):
             rep["judge"] = res
             if meta.get("whfast512_domain") == "general":
                 known = True
-            violations.append(((KNOWN_512 if tag == "whfast512" else KNOWN_KEY) if known else "kepler:%s_off_orbit" % tag, rep,
-                               "%s step is off the exact Kepler orbit (error/tolerance pos %.3g vel %.3g)"
-                               % (tag, res["ratio_pos"], res["ratio_vel"])))
+            hk = history_known(tag, meta.get("history"))
+            key = hk if hk else ((KNOWN_512 if tag == "whfast512" else KNOWN_KEY) if known else "kepler:%s_off_orbit" % tag)
+            violations.append((key, rep,
+                               "%s step%s is off the exact Kepler orbit (error/tolerance pos %.3g vel %.3g)"
+                               % (tag, " on a simulation with a history" if meta.get("history") else "",
+                                  res["ratio_pos"], res["ratio_vel"])))
     ctx.extra["full_step_cases"] = per_integ
     if errors:
         ctx.extra["full_step_errors"] = errors
